@@ -226,18 +226,30 @@ def build_test(cfg):
     return NonnegMean(test=test, **kw)
 
 
-def run_sample(tst, cfg, xs):
-    """One execution: test(x), and estim(x) / bet(x) where the method has them."""
+def run_sample(tst, cfg, xs, buf=None):
+    """One execution: test(x), and estim(x) / bet(x) where the method has them.
+    The sample is handed over the way callers do: as a view of a longer float array that also served the
+    previous (shorter) samples of the walk - never copied, so a call that alters its input is felt by the next -
+    or, when every value is a whole number, as an integer (int64) array."""
     import numpy as np
-    x = np.array([float(v) for v in xs])
+    n = len(xs)
+    if buf is not None:
+        buf[n - 1] = float(xs[-1])
+        x = buf[:n]
+    else:
+        x = np.array([float(v) for v in xs])
+    if all(v.denominator == 1 for v in xs) and (sum(int(v) for v in xs) + n) % 2 == 0:
+        xin = lambda: np.array([int(v) for v in xs])      # an integer array (plain lists are not accepted by all tests)
+    else:
+        xin = lambda: x
     try:
         with warnings.catch_warnings():
             warnings.simplefilter("ignore")
-            p, ph = tst.test(x.copy())
+            p, ph = tst.test(xin())
             if cfg["method"] == "ALPHA":
-                est = tst.estim(x.copy())
+                est = tst.estim(np.array(xin()))
             elif cfg["method"] == "BETTING":
-                est = tst.bet(x.copy())
+                est = tst.bet(np.array(xin()))
             else:
                 est = None
         ph = [rs(v) for v in np.atleast_1d(ph)]
@@ -272,13 +284,15 @@ def dfs_samples(gr, depth):
 
 def code_records(cfg, samples, depth, tidp):
     """records for Trace_SeqTest, in the order given (must be depth-first for the chain clauses)"""
+    import numpy as np
     tst = build_test(cfg)
     cj = cfg_json(cfg, depth)
     recs = []
+    buf = np.zeros(max([depth] + [len(s) for s in samples]))
     for k, xs in enumerate(samples):
         r = {"kind": "run", "tid": f"{tidp}:{k}", "walk": f"{tidp}:{rs(xs[0])}", "cfgname": cfg["name"], "cfg": cj,
              "x": [rs(v) for v in xs]}
-        r.update(run_sample(tst, cfg, xs))
+        r.update(run_sample(tst, cfg, [F(v) for v in xs], buf))
         recs.append(r)
     return recs
 
